@@ -407,11 +407,15 @@ namespace GeographicLib {
     S.resize(SphericalEngine::coeff::Ssize(N, M));
     int skip = (SphericalEngine::coeff::Csize(N0, M0) -
                 SphericalEngine::coeff::Csize(N0, M )) * sizeof(double);
+    // The m = 0 column is not stored in S.  With M = -1 nothing of S is read
+    // and Ssize(N0, -1) = -(N0 + 1) is not a count.
+    int skipS = M >= 0 ? skip :
+      SphericalEngine::coeff::Ssize(N0, M0) * int(sizeof(double));
     if (N == N0) {
       Utility::readarray<double, real, false>(stream, C);
       if (skip) stream.seekg(streamoff(skip), ios::cur);
       Utility::readarray<double, real, false>(stream, S);
-      if (skip) stream.seekg(streamoff(skip), ios::cur);
+      if (skipS) stream.seekg(streamoff(skipS), ios::cur);
     } else {
       for (int m = 0, k = 0; m <= M; ++m) {
         Utility::readarray<double, real, false>(stream, &C[k], N + 1 - m);
@@ -424,7 +428,7 @@ namespace GeographicLib {
         stream.seekg((N0 - N) * sizeof(double), ios::cur);
         k += N + 1 - m;
       }
-      if (skip) stream.seekg(streamoff(skip), ios::cur);
+      if (skipS) stream.seekg(streamoff(skipS), ios::cur);
     }
     return;
   }
